@@ -271,6 +271,11 @@ def mutate(
     else:
         # No exception was caught, so write the output file(s)
 
+        # Serialize & encode up front so that a failure can't leave a
+        # truncated output file behind
+        output_data = str(simfile)
+        output_data.encode(encoding, kwargs.get("errors") or "strict")
+
         # Write backup file if requested
         if backup_filename:
             with filesystem.open(
@@ -282,4 +287,4 @@ def mutate(
         with filesystem.open(
             output_filename or input_filename, "w", encoding=encoding, **kwargs
         ) as writer:
-            simfile.serialize(cast(TextIO, writer))
+            writer.write(output_data)
